@@ -7,6 +7,7 @@ package operators
 import (
 	"regexp"
 	"regexp/syntax"
+	"runtime"
 	"strings"
 
 	"github.com/rs/zerolog"
@@ -29,6 +30,30 @@ var flagGroupAnywhere = regexp.MustCompile(`\(\?[-misU]+[:)]`)
 //@ directive[C02] bounded BoundedGenerateFlags quick=3 thorough=4 tokens="a" "." "^x" "(?i:b.)" "\\s" "$"
 
 func BoundedGenerate(in string) string { return boundedGenerate("", in) }
+
+// BoundedGenerateLines (C19): a whole assembly program built from directive lines - block
+// starts and ends, stash markers with ordinary, empty and white-space-only names, prefix, suffix,
+// flags, definitions (one of them self-referential) and plain entries. The assembler may
+// return a regex, return an error, or stop with one of its deliberate diagnostics (a panic
+// raised through the logger carries a message, not a runtime.Error); a runtime fault fails the
+// contract, and so does a run that does not come back (the harness is run under a deadline).
+// No cmdline block among the tokens: a marker line inside one reaches the deliberate fatal
+// diagnostic of the simplification pass, which ends the process the harness runs in.
+//@ directive[C19] bounded BoundedGenerateLines quick=4 thorough=5 tokens="a\n" "##!> assemble\n" "##!<\n" "##!=>\n" "##!=< n\n" "##!=> n\n" "##!=<\x0b\n" "##!=> \u00a0\n" "##!^ p\n" "##!$ s\n" "##!+ i\n" "##!> define d x{{d}}\n" "{{d}}b@\n"
+
+func BoundedGenerateLines(in string) (msg string) {
+	zerolog.SetGlobalLevel(zerolog.Disabled)
+	defer func() {
+		if r := recover(); r != nil {
+			if re, ok := r.(runtime.Error); ok {
+				msg = "runtime fault: " + re.Error()
+			}
+		}
+	}()
+	ctx := processors.NewContext(context.New("/nonexistent-root", "toolchain.yaml"))
+	_, _ = NewAssembler(ctx).Run(in)
+	return ""
+}
 
 func BoundedGenerateFlags(in string) string {
 	if m := boundedGenerate("##!+ si\n", in); m != "" {
